@@ -5,6 +5,7 @@ import (
 	"encoding/base64"
 	"encoding/json"
 	"fmt"
+	"os"
 	"sort"
 	"strconv"
 	"strings"
@@ -26,6 +27,22 @@ type UploadFile struct {
 	Name    string   `json:"name"`
 	DataB64 string   `json:"data_b64"`
 	Paths   []string `json:"paths"`
+	// Size/Seed describe the content of a large file instead of DataB64 (a pattern, not stored in the case file)
+	Size int `json:"size,omitempty"`
+	Seed int `json:"seed,omitempty"`
+}
+
+// fileData returns the content of an upload: the stored bytes, or the pattern of a large file.
+func fileData(f UploadFile) []byte {
+	if f.Size > 0 && f.DataB64 == "" {
+		data := make([]byte, f.Size)
+		for j := range data {
+			data[j] = byte((j*131 + j/4099 + f.Seed) % 253)
+		}
+		return data
+	}
+	data, _ := base64.StdEncoding.DecodeString(f.DataB64)
+	return data
 }
 
 type UploadCase struct {
@@ -134,8 +151,7 @@ func checkC19(c *UploadCase) (*ev.Failure, string) {
 	for i, f := range c.Files {
 		key := strconv.Itoa(i)
 		fm[key] = f.Paths
-		data, _ := base64.StdEncoding.DecodeString(f.DataB64)
-		files = append(files, mpFile{Key: key, Name: f.Name, Data: data})
+		files = append(files, mpFile{Key: key, Name: f.Name, Data: fileData(f)})
 	}
 	mapJSON, _ := json.Marshal(fm)
 	body, ct := buildMultipart([][2]string{{"operations", string(opsJSON)}, {"map", string(mapJSON)}}, files)
@@ -261,7 +277,7 @@ func checkC19(c *UploadCase) (*ev.Failure, string) {
 			if !ok {
 				return ev.Failf("file-missing", "service %s: no file at path %s (paths received: %v)", r.Service, p, keysOfParts(r.Files)), ""
 			}
-			want, _ := base64.StdEncoding.DecodeString(c.Files[fi].DataB64)
+			want := fileData(c.Files[fi])
 			if part.Name != c.Files[fi].Name {
 				return ev.Failf("name-differs", "service %s path %s: file name %q, client sent %q", r.Service, p, part.Name, c.Files[fi].Name), ""
 			}
@@ -518,6 +534,53 @@ func TestC19(t *testing.T) {
 			if only := onlySig(); only != "" && !strings.HasPrefix(f.Signature, only) {
 				return
 			}
+			ev.WriteFail("C19", c, f)
+			t.Fatalf("%v", f)
+		}
+	})
+}
+
+// TestC19Large: the same round trip with files beyond the 32 MiB the request parser keeps in memory (such parts are
+// spilled to disk by net/http and handed over as *os.File): one file of 33..40 MiB, others of 0..9 MiB.
+func TestC19Large(t *testing.T) {
+	rec := ev.Get("C19")
+	dir, err := os.MkdirTemp(os.Getenv("VERIF_OUT"), "c19large")
+	if err != nil {
+		t.Fatal(err)
+	}
+	old, had := os.LookupEnv("TMPDIR")
+	os.Setenv("TMPDIR", dir) // spilled parts land here and are removed with the directory
+	defer func() {
+		if had {
+			os.Setenv("TMPDIR", old)
+		} else {
+			os.Unsetenv("TMPDIR")
+		}
+		os.RemoveAll(dir)
+	}()
+	rapid.Check(t, func(t *rapid.T) {
+		c, labels := genUploadCase(t)
+		if len(c.Files) == 0 {
+			return
+		}
+		for _, g := range c19Gates(labels, c) {
+			if gateClosed(g) {
+				return
+			}
+		}
+		big := rapid.IntRange(0, len(c.Files)-1).Draw(t, "bigfile")
+		for i := range c.Files {
+			c.Files[i].DataB64 = ""
+			c.Files[i].Seed = rapid.IntRange(0, 250).Draw(t, "lseed")
+			if i == big {
+				c.Files[i].Size = rapid.IntRange(33, 40).Draw(t, "bigmib") << 20
+			} else {
+				c.Files[i].Size = rapid.SampledFrom([]int{1, 4096, 1 << 20, 9 << 20}).Draw(t, "othersize")
+			}
+		}
+		ev.Current("C19", c)
+		rec.Case(ev.Hash(c), true, append(labels, "spilledToDisk")...)
+		if f, _ := checkC19(c); f != nil {
 			ev.WriteFail("C19", c, f)
 			t.Fatalf("%v", f)
 		}
